@@ -157,6 +157,26 @@ Section Pipeline.
   Qed.
 End Pipeline.
 
+(* ---------------------------------------------------------------- fewer than 3 tapers: adaptive=True
+   gives the fixed eigenvalue-weighted estimate, so its Parseval theorem applies *)
+Theorem adaptive_few_is_fixed m dflt sd N K Fs rt lam Y f : (K < 3)%nat ->
+  mt_psd_adaptive_all m dflt sd N K Fs rt lam Y f = mt_psd sd N K Fs (fun k _ => rt k) Y f.
+Proof. intros H. unfold mt_psd_adaptive_all, ad_weights_all. apply Nat.ltb_lt in H. rewrite H. reflexivity. Qed.
+
+Theorem adaptive_few_parseval m dflt sd N K Fs rt lam (Y : nat -> sig) (E : nat -> Q) :
+  (K < 3)%nat -> (0 < N)%nat -> ~ Fs == 0 ->
+  (forall k, (k < K)%nat -> rt k * rt k == lam k) ->
+  ~ sumn lam K == 0 ->
+  (forall k, (k < K)%nat -> sumn (fun f => cnorm2 (Y k f)) N == inj N * E k) ->
+  (sd = OneSided -> forall k f, (k < K)%nat -> (0 < f < N)%nat -> Y k (N - f)%nat =c= cconj (Y k f)) ->
+  sumn (fun f => mt_psd_adaptive_all m dflt sd N K Fs rt lam Y f * (Fs / inj N)) (out_len sd N)
+  == sumn (fun k => lam k * E k) K / sumn lam K.
+Proof.
+  intros HK HN HF Hrt HL HE Hs.
+  rewrite <- (mt_parseval sd N K Fs rt lam Y E HN HF Hrt HL HE Hs).
+  apply sumn_ext; intros f _. rewrite (adaptive_few_is_fixed m dflt sd N K Fs rt lam Y f HK). reflexivity.
+Qed.
+
 (* ---------------------------------------------------------------- REFUTATION: adaptive one-sided
    output is not the folded two-sided output.  Witness: 3 tapers, the true 4-point DFT of three real
    signals, sqrt-eigenvalues (1, 3/4, 1/2), one pass, Fs = 1, bin 1. *)
